@@ -22,6 +22,8 @@ T0 = 1577836800  # 2020-01-01 in seconds
 def enc_val(v):
     if isinstance(v, float) and v != v:
         return "nan"
+    if isinstance(v, float) and abs(v) == float("inf"):
+        return "inf" if v > 0 else "-inf"
     return v
 
 
@@ -56,17 +58,18 @@ class C14(Scenario):
     block = 8
     rule = ("one run = one DataFrame (<= 60 rows; float columns with NaN, int, bool and timestamp columns), one request "
             "(1-4 features of 1-3 dimensions, binning auto / unit or explicit bin_specs of kinds num-low-high, binWidth-origin, "
-            "edges, centers, thresholds, with or without a time axis), make_histograms(..., ret_specs=True) on the whole "
+            "edges, centers, thresholds, cut, fraction and - last dimension - maximize / minimize / average / deviate / sum / bag, with or without a time axis; one float column holds +-inf and values exactly on the upper edges), make_histograms(..., ret_specs=True) on the whole "
             "frame, then the same request with the frozen features / bin_specs / var_dtype on k row chunks, merged with + "
             "in seeded order and grouping; also a tree built by the harness from the frozen specs and filled with "
-            "fill.numpy. Non-trivial: >= 2 chunks, >= 1 feature with >= 2 dimensions, >= 8 rows. Distinct: hash of "
+            "fill.numpy and, a second one, row by row. Non-trivial: >= 2 chunks, >= 1 feature with >= 2 dimensions, >= 8 rows. Distinct: hash of "
             "(column kinds, request, partition shape).")
     assumptions = ["string columns are outside the claim (pandas 3 string dtype breaks the filler before any histogram logic)",
                    "timestamp columns contain no NaT", "all histograms are Count-valued, so documents are compared exactly, after dropping categories / sparse bins whose "
                    "whole subtree holds zero weight (the vectorised filler creates them for every value present in a batch)"]
     expected_faults = ["reorder", "regroup"]
     expected_probes = ["feature_3d", "time_axis", "explicit_bin_specs", "nan_in_float_column", "bool_axis", "non_range_index",
-                       "chunk_keeps_row_labels"]
+                       "chunk_keeps_row_labels", "spec_kind_cut", "spec_kind_fraction", "spec_kind_sum", "spec_kind_average", "spec_kind_deviate",
+                       "spec_kind_maximize", "spec_kind_minimize", "spec_kind_bag", "inf_in_float_column", "rowwise_direct_fill"]
 
     def generate(self, rng, tier, profile):
         big = tier == "thorough"
@@ -75,12 +78,16 @@ class C14(Scenario):
         cols = {}
         cols["f1"] = ("float", [enc_val(d.pick([float("nan")] if d.chance(0.1) else [round(d.uniform(-3, 8), d.pick([0, 1, 3]))])) for _ in range(n)])
         cols["f2"] = ("float", [enc_val(d.pick([0.0, 0.5, 1.0, 1.5, 2.0, 2.5, float("nan"), -1.0, 10.0])) for _ in range(n)])
+        has_inf, has_nan3 = d.chance(0.5), d.chance(0.3)
+        cols["f3"] = ("float", [enc_val(d.pick([float("inf"), float("inf"), float("-inf")]) if (has_inf and d.chance(0.08)) else
+                                        float("nan") if (has_nan3 and d.chance(0.1)) else
+                                        d.pick([0.0, 0.5, 1.0, 2.0, 3.0, 4.5, 10.0, -1.0, 0.25, 1.0, 3.0])) for _ in range(n)])
         cols["i1"] = ("int", [d.randint(-3, 12) for _ in range(n)])
         cols["i2"] = ("int", [d.pick([0, 1, 1, 2, 5, 100]) for _ in range(n)])
         cols["b1"] = ("bool", [d.chance(0.6) for _ in range(n)])
         cols["t1"] = ("ts", [T0 + d.randint(0, 400) * 86400 + d.pick([0, 3600, 86399]) for _ in range(n)])
         t = rng.fork("tree")
-        names = ["f1", "f2", "i1", "i2", "b1"]
+        names = ["f1", "f2", "i1", "i2", "b1", "f3"]
         use_time = t.chance(0.3)
         feats = []
         for _ in range(t.randint(1, 4)):
@@ -94,21 +101,27 @@ class C14(Scenario):
                 feats.append(f)
         binning = t.pick(["auto", "auto", "unit"])
         bin_specs = {}
-        if t.chance(0.5):
-            for f in feats:
-                if t.chance(0.6):
-                    specs = []
-                    for c in f:
-                        kind = cols[c][0]
-                        if kind in ("bool",):
-                            specs.append({})
-                        elif c == "t1":
-                            specs.append({"binWidth": float(t.pick([7, 30, 90]) * 86400 * 10 ** 9), "origin": float(T0 * 10 ** 9)})
-                        else:
-                            specs.append(t.pick([{"num": t.pick([2, 4, 5]), "low": t.pick([-1.0, 0.0, 0.5]), "high": t.pick([3.0, 4.5, 10.0])},
-                                                 {"binWidth": t.pick([0.5, 1.0, 2.0, 0.1]), "origin": t.pick([0.0, 0.25, -1.0])},
-                                                 {"edges": [0.0, 1.0, 2.5]}, {"centers": [0.0, 1.0, 3.0]}, {"thresholds": [0.5, 2.0]}]))
-                    bin_specs[":".join(f)] = specs[0] if len(f) == 1 else specs
+        explicit = t.chance(0.5)
+        for f in feats:
+            # f3 may hold +-inf: it is only ever used with explicit specifications (automatic binning needs a finite range)
+            if "f3" in f or (explicit and t.chance(0.6)):
+                specs = []
+                for ci, c in enumerate(f):
+                    kind = cols[c][0]
+                    if kind in ("bool",):
+                        specs.append({})
+                    elif c == "t1":
+                        specs.append({"binWidth": float(t.pick([7, 30, 90]) * 86400 * 10 ** 9), "origin": float(T0 * 10 ** 9)})
+                    else:
+                        menu = [{"num": t.pick([2, 4, 5]), "low": t.pick([-1.0, 0.0, 0.5]), "high": t.pick([3.0, 4.5, 10.0])},
+                                {"binWidth": t.pick([0.5, 1.0, 2.0, 0.1]), "origin": t.pick([0.0, 0.25, -1.0])},
+                                {"edges": [0.0, 1.0, 2.5]}, {"centers": [0.0, 1.0, 3.0]}, {"thresholds": [0.5, 2.0]}]
+                        if c in ("f3", "f2", "i2") and ci < 2:
+                            menu += [{"cut": True}, {"fraction": True}] * (2 if c == "f3" else 1)
+                        if ci == len(f) - 1 and c != "f3" and t.chance(0.25):
+                            menu = [{"maximize": True}, {"minimize": True}, {"average": True}, {"deviate": True}, {"sum": True}, {"bag": True, "range": "N"}]
+                        specs.append(t.pick(menu))
+                bin_specs[":".join(f)] = specs[0] if len(f) == 1 else specs
         s = rng.fork("schedule")
         k = s.randint(1, min(6, n))
         assign = [s.randrange(k) for _ in range(n)]
@@ -136,8 +149,8 @@ class C14(Scenario):
                 "index_mode": s.pick([None, None, "offset", "shuffled", "strings"])}
 
     # ------------------------------------------------------------------
-    def _direct(self, feature, bin_specs, var_dtype, time_axis, df):
-        """a tree built by the harness from the frozen specs, filled with fill.numpy from the columns"""
+    def _direct(self, feature, bin_specs, var_dtype, time_axis, df, rowwise=False):
+        """a tree built by the harness from the frozen specs, filled from the columns: with fill.numpy, or row by row"""
         import histogrammar as hg
         import pandas as pd
 
@@ -171,6 +184,22 @@ class C14(Scenario):
                 h = hg.CentrallyBin(list(sp["centers"]), q, h)
             elif "thresholds" in sp:
                 h = hg.Stack(list(sp["thresholds"]), q, h)
+            elif "maximize" in sp:
+                h = hg.Maximize(q)
+            elif "minimize" in sp:
+                h = hg.Minimize(q)
+            elif "average" in sp:
+                h = hg.Average(q)
+            elif "deviate" in sp:
+                h = hg.Deviate(q)
+            elif "sum" in sp:
+                h = hg.Sum(q)
+            elif "bag" in sp or "range" in sp:
+                h = hg.Bag(q, sp.get("range", "N"))
+            elif "fraction" in sp:
+                h = hg.Fraction(q, h)
+            elif "cut" in sp:
+                h = hg.Select(q, h)
             else:
                 raise HarnessError("unknown spec %r" % (sp,))
         data = {}
@@ -179,8 +208,39 @@ class C14(Scenario):
                 data[c] = df[c].values.astype("datetime64[ns]").astype("int64")
             else:
                 data[c] = df[c].values
-        h.fill.numpy(data)
+        if rowwise:
+            for i in range(len(df)):
+                h.fill({c: data[c][i].item() for c in cols})
+        else:
+            h.fill.numpy(data)
         return h
+
+    def _near_edge(self, feature, bin_specs, var_dtype, df):
+        cols = feature.split(":")
+        spec = bin_specs.get(feature)
+        for idx, c in enumerate(cols):
+            sp = spec[idx] if isinstance(spec, list) and len(spec) == len(cols) else spec if isinstance(spec, dict) else bin_specs.get(c)
+            if not isinstance(sp, dict) or np.issubdtype(np.dtype(var_dtype[c]), np.datetime64) or np.issubdtype(np.dtype(var_dtype[c]), np.bool_):
+                continue
+            vals = [float(v) for v in df[c].values if v == v and abs(float(v)) != float("inf")]
+            if "num" in sp:
+                lo, hi, n_ = float(sp["low"]), float(sp["high"]), int(sp["num"])
+                wd = (hi - lo) / n_
+                if float(wd * 8).is_integer() and float(lo * 8).is_integer():
+                    continue
+                for v in vals:
+                    k = (v - lo) / wd
+                    if abs(k - round(k)) < 1e-9 * max(1.0, abs(k)):
+                        return True
+            elif "binWidth" in sp or "bin_width" in sp:
+                bw, og = float(sp.get("binWidth", sp.get("bin_width", 1.0))), float(sp.get("origin", sp.get("bin_offset", 0.0)))
+                if float(bw * 8).is_integer() and float(og * 8).is_integer():
+                    continue
+                for v in vals:
+                    k = (v - og) / bw
+                    if abs(k - round(k)) < 1e-9 * max(1.0, abs(k)):
+                        return True
+        return False
 
     def _docs(self, hists):
         return {k: _norm(observe.observe(v)) for k, v in hists.items()}
@@ -248,6 +308,25 @@ class C14(Scenario):
                         raise self.violation(d[1], "make_histograms", "content:%s" % d[2],
                                              "histogram %r differs from a tree built from the returned specs and filled with fill.numpy at %s (%s.%s)" % (
                                                  name, d[0], d[1], d[2]), si, {"make_histograms": whole_docs[name], "direct": dd})
+                    # ... and row by row (sums of the leaf kinds are accumulated in another order: tolerance)
+                    rh = call(self._direct, name, bs_r, vd_r, ta_r, df, True)
+                    if not rh.ok:
+                        raise self.violation(exc_site(rh.exc)[0], "direct-fill", "exception:%s" % type(rh.exc).__name__, rh.describe(), si)
+                    rd = _norm(observe.observe(rh.value))
+                    w.bump("probe_rowwise_direct_fill")
+                    if rd != whole_docs[name]:
+                        scale = max([1.0] + [abs(float(v)) for kind, vals in cols.values() if kind in ("float", "int") for v in vals
+                                             if v != "nan" and abs(float(v)) != float("inf")])
+                        d = observe.doc_diff(whole_docs[name], rd, observe.Tol(n=16 * n, scale=scale, sums=True))
+                        if d is not None and self._near_edge(name, bs_r, vd_r, df):
+                            # a value within rounding distance of a computed (non-dyadic) bin edge: row-wise and vectorised
+                            # index arithmetic may legitimately differ there (C03's assumption)
+                            w.bump("probe_near_edge_skip")
+                            d = None
+                        if d is not None:
+                            raise self.violation(d[1], "make_histograms", "rowwise:%s" % d[2],
+                                                 "histogram %r differs from the same tree filled row by row at %s (%s.%s)" % (name, d[0], d[1], d[2]), si,
+                                                 {"make_histograms": whole_docs[name], "direct": rd})
                 if any(f.count(":") >= 2 for f in f_r):
                     w.bump("probe_feature_3d")
                 if ta_r:
@@ -258,6 +337,11 @@ class C14(Scenario):
                     w.bump("probe_nan_in_float_column")
                 if any("b1" in f for f in f_r):
                     w.bump("probe_bool_axis")
+                for kind_ in ("cut", "fraction", "sum", "average", "deviate", "maximize", "minimize", "bag"):
+                    if ("'%s'" % kind_) in repr(bs_r):
+                        w.bump("probe_spec_kind_" + kind_)
+                if any(v in ("inf", "-inf") for v in cols["f3"][1]) and any("f3" in f for f in f_r):
+                    w.bump("probe_inf_in_float_column")
             elif op == "chunk":
                 if frozen is None or not st["rows"] or any(i >= n for i in st["rows"]):
                     continue
@@ -301,17 +385,22 @@ class C14(Scenario):
                 red, rows = parts[st["obj"]]
                 if sorted(rows) != list(range(n)):
                     continue  # the minimiser removed a chunk: the reduction no longer covers the frame
-                self._cmp(whole_docs, self._docs(red), "partition-invariance", si)
+                inexact = any(k in repr(frozen[1]) for k in ("'sum'", "'average'", "'deviate'"))
+                scale = max([1.0] + [abs(float(v)) for kind, vals in cols.values() if kind in ("float", "int") for v in vals
+                                     if v != "nan" and abs(float(v)) != float("inf")])
+                self._cmp(whole_docs, self._docs(red), "partition-invariance", si, observe.Tol(n=16 * n, scale=scale, sums=True) if inexact else None)
             w.record_step(st)
         R["nontrivial"] = nchunks >= 2 and any(":" in f for f in feats) and n >= 8
         R["units"] = nchunks
 
-    def _cmp(self, a, b, label, si):
+    def _cmp(self, a, b, label, si, tol=None):
         for name in sorted(a):
             if name not in b:
                 raise self.violation("make_histograms", "make_histograms", "%s:missing" % label, "feature %r missing" % name, si)
             if a[name] != b[name]:
-                d = observe.doc_diff(a[name], b[name]) or ([], "?", "?")
+                d = observe.doc_diff(a[name], b[name], tol) if tol is not None else (observe.doc_diff(a[name], b[name]) or ([], "?", "?"))
+                if d is None:
+                    continue
                 raise self.violation(d[1], "make_histograms", "%s:%s" % (label, d[2]),
                                      "%s: histogram %r differs at %s (%s.%s)" % (label, name, d[0], d[1], d[2]), si,
                                      {"whole": a[name], "other": b[name]})
